@@ -139,10 +139,16 @@ class TMachine(M.Machine):
         self.recording = False
         # happens-before (vector clocks): per thread, per synchronisation object; last accesses per location
         self.vc: Dict[str, Dict[str, int]] = {}
-        self.sync_vc: Dict[int, Dict[str, int]] = {}
+        self.sync_vc: Dict[Any, Dict[str, int]] = {}
         self.last_write: Dict[str, Tuple[str, int]] = {}
         self.last_reads: Dict[str, Dict[str, int]] = {}
         self.hb_races: List[str] = []
+
+    def _init_static(self, node, init, vtype):
+        loc = super()._init_static(node, init, vtype)
+        if not node.get('tls'):
+            self.watch[id(loc)] = 'static variable ' + str(node.get('name'))      # shared by construction
+        return loc
 
     # ---- happens-before ---------------------------------------------------------------------------------------
     def _clock(self, t: str) -> Dict[str, int]:
@@ -150,13 +156,13 @@ class TMachine(M.Machine):
             self.vc[t] = {t: 1}
         return self.vc[t]
 
-    def hb_acquire(self, obj_id: int):
+    def hb_acquire(self, obj_id):
         me = self._clock(self.tid())
         for t, c in self.sync_vc.get(obj_id, {}).items():
             if c > me.get(t, 0):
                 me[t] = c
 
-    def hb_release(self, obj_id: int):
+    def hb_release(self, obj_id):
         t = self.tid()
         me = self._clock(t)
         dst = self.sync_vc.setdefault(obj_id, {})
@@ -202,29 +208,36 @@ class TMachine(M.Machine):
             self.sched.yield_point(event, blocked)
 
     # ---- mutex ------------------------------------------------------------------------------------------------
-    def lock(self, ul: M.UniqueLockV):
+    def lock(self, ul: M.UniqueLockV, wait: bool = True):
         mloc = ul.mutex
         m: M.MutexV = self.load(mloc)
         me = self.tid()
-        if m.locked and getattr(m, 'owner', None) == me:
-            raise M.Deadlock('a thread takes a std::mutex it already holds')
-        self.yield_event(('lock-wait',), blocked=lambda: not m.locked)
-        if m.locked:
+        if wait:
+            if m.locked and m.owner == me and m.flavour != 'recursive':
+                raise M.Deadlock('a thread takes a std::mutex it already holds')
+            if ul.shared and me in m.readers:
+                raise M.Deadlock('a thread takes a shared lock on a mutex it already holds shared')
+            if not ul.shared and me in m.readers:
+                raise M.Deadlock('a thread takes the exclusive lock on a mutex it holds shared')
+            self.yield_event(('lock-wait',), blocked=lambda: self.can_take(m, ul.shared, me))
+        if not self.can_take(m, ul.shared, me):
             raise M.Deadlock('mutex still locked after being scheduled')
-        m.locked = True
-        m.owner = me
+        self.take(m, ul.shared, me)
         ul.owns = True
-        self.hb_acquire(id(mloc))
+        # happens-before: everybody synchronises with earlier exclusive holders; an exclusive holder also
+        # with earlier shared holders (two shared holders do not synchronise with each other)
+        self.hb_acquire(('w', id(mloc)))
+        if not ul.shared:
+            self.hb_acquire(('r', id(mloc)))
         self.held.setdefault(me, []).append(mloc)
 
     def unlock(self, ul: M.UniqueLockV):
         mloc = ul.mutex
         m: M.MutexV = self.load(mloc)
-        m.locked = False
-        m.owner = None
-        ul.owns = False
-        self.hb_release(id(mloc))
         me = self.tid()
+        self.give(m, ul.shared, me)
+        ul.owns = False
+        self.hb_release(('r', id(mloc)) if ul.shared else ('w', id(mloc)))
         if mloc in self.held.get(me, []):
             self.held[me].remove(mloc)
         # no yield here: until its next synchronisation the thread only touches thread-local state, so a
